@@ -103,6 +103,8 @@ class Env:
         self.scan_run: int | None = None
         self.in_main = False
         self.closes = 0
+        self.stall = False   # the database writer's INSERTs into scan_result are held back while main() runs
+        self.gate: asyncio.Event | None = None
 
     def dispose(self) -> None:
         _ENVS.pop(self.key, None)
@@ -204,6 +206,7 @@ class C11Transport(BaseTransport, scheme="c11"):
         if kind == "E":
             return b""
         assert data is not None
+        env.rec(e="RR", data=data.hex(), i=None if call is None else call["i"])  # the client HAS the reply now
         return data
 
 
@@ -260,6 +263,18 @@ class HistScanner(UDSScanner):
         assert self.db_handler is not None
         env.scan_run = self.db_handler.scan_run
         self.ecu.retry_wait = 0.0005  # the back-off duration is irrelevant to C11
+        if env.stall and self.db_handler.connection is not None:
+            # a slow disk / another process holding the database: the writer task cannot insert for a while
+            env.gate = asyncio.Event()
+            conn = self.db_handler.connection
+            real_execute = conn.execute
+
+            async def held_execute(sql: str, *a: Any, **kw: Any) -> Any:
+                if env.gate is not None and not env.gate.is_set() and "scan_result" in sql and "INSERT" in sql.upper():
+                    await env.gate.wait()
+                return await real_execute(sql, *a, **kw)
+
+            conn.execute = held_execute  # type: ignore[method-assign]
         env.in_main = True
         n = 0
         try:
@@ -338,6 +353,13 @@ def _decode_rows(path: Path, t0: float) -> tuple[list[dict[str, Any]], list[int]
         con.close()
 
 
+def _final_reply(hexdata: str | None) -> bool:
+    if not hexdata:
+        return False
+    b = bytes.fromhex(hexdata)
+    return not (len(b) == 3 and b[0] == 0x7F and b[2] in (0x78, 0x21))
+
+
 def build_trace(env: Env, rows: list[dict[str, Any]], closed: bool, aborted: bool, stray: int) -> dict[str, Any]:
     """Lay the recorded events out as the record of DbLogContract (structural only)."""
     calls: dict[int, dict[str, Any]] = {}
@@ -357,6 +379,8 @@ def build_trace(env: Env, rows: list[dict[str, Any]], closed: bool, aborted: boo
             c["writes"].append(ev["data"])
         elif e == "R" and ev["i"] in calls and ev["data"] is not None:
             calls[ev["i"]]["replies"].append(ev["data"])
+        elif e == "RR" and ev["i"] in calls:
+            calls[ev["i"]]["returned"] = ev["data"]
         elif e == "Warn":
             for c in calls.values():
                 if c.get("open") and c["task"] == ev["task"]:
@@ -383,6 +407,9 @@ def build_trace(env: Env, rows: list[dict[str, Any]], closed: bool, aborted: boo
         exch.append({"req": list(bytes.fromhex(reqhex)), "nw": len(ws),
                      "replies": [list(bytes.fromhex(r)) for r in c["replies"]],
                      "out": c["out"], "st": c["st"] if c["st"] is not None else c["st0"],
+                     # the transport handed a final reply (not responsePending / busyRepeatRequest) to the client
+                     # before the call ended: the exchange is complete even if the call was cut afterwards
+                     "done": _final_reply(c.get("returned")),
                      "impl": impl, "ana": c["ana"],
                      # the call ended with the client's "illegal response" errors: a reply WAS received and refused
                      "illegal": c["out"] == "exc" and str(c["exc"]).startswith(("RequestResponseMismatch", "MalformedResponse"))})
@@ -395,8 +422,31 @@ def build_trace(env: Env, rows: list[dict[str, Any]], closed: bool, aborted: boo
             "rowexc": [r["exc"] for r in rows]}
 
 
-async def _run_one(hist: list[dict[str, Any]], db: Path, cancel_at: int | None, late: bool) -> dict[str, Any]:
+async def _watchdog(env: Env) -> None:
+    """Stalled-writer runs: open the gate when main() has ended; if main() itself stops making progress
+    (a client that waits for the writer), cancel the run there (a user's Ctrl-C) and open the gate."""
+    last, since = -1, time.monotonic()
+    while True:
+        await asyncio.sleep(0.05)
+        if env.gate is None:
+            continue
+        if not env.in_main:
+            env.gate.set()
+            return
+        if env.points != last:
+            last, since = env.points, time.monotonic()
+        elif time.monotonic() - since > 1.0:
+            env.rec(e="Abort", k=env.points, where="stuck-behind-the-writer")
+            assert env.run_task is not None
+            env.run_task.cancel()
+            env.gate.set()
+            return
+
+
+async def _run_one(hist: list[dict[str, Any]], db: Path, cancel_at: int | None, late: bool,
+                   stall: bool = False) -> dict[str, Any]:
     env = Env(cancel_at, late)
+    env.stall = stall
     _CURRENT.append(env)
     try:
         cfg = UDSScannerConfig(target=TargetURI(env.key), db=db, dumpcap=False, ping=False, tester_present=False,
@@ -406,12 +456,20 @@ async def _run_one(hist: list[dict[str, Any]], db: Path, cancel_at: int | None, 
         sc.hist = hist
         task = asyncio.get_running_loop().create_task(sc.entry_point(), name="run")
         env.run_task = task
+        wd = asyncio.get_running_loop().create_task(_watchdog(env), name="watchdog") if stall else None
         rc: Any = None
         cancelled = False
         try:
             rc = await task
         except asyncio.CancelledError:
             cancelled = True
+        finally:
+            if wd is not None:
+                wd.cancel()
+                try:
+                    await wd
+                except BaseException:  # noqa: BLE001
+                    pass
         h = sc.db_handler
         closed = h is not None and h.connection is None
         leftover = False
@@ -445,7 +503,8 @@ def run_file(jobs: list[dict[str, Any]]) -> list[dict[str, Any]]:
         t0 = float(int(time.time()) - 1)
         results = []
         for job in jobs:
-            results.append(asyncio.run(_run_one(job["hist"], db, job.get("cancel_at"), bool(job.get("late")))))
+            results.append(asyncio.run(_run_one(job["hist"], db, job.get("cancel_at"), bool(job.get("late")),
+                                                bool(job.get("stall")))))
         rows, runs = _decode_rows(db, t0)
         mine = {r["scan_run"] for r in results if r["scan_run"] is not None}
         stray = sum(1 for r in rows if r["run"] not in mine)
@@ -455,7 +514,8 @@ def run_file(jobs: list[dict[str, Any]]) -> list[dict[str, Any]]:
             my = [x for x in rows if x["run"] == r["scan_run"]] if r["scan_run"] is not None else []
             aborted = bool(r["cancelled"]) or any(ev["e"] == "Abort" for ev in env.log)
             tr = build_trace(env, my, bool(r["closed"]), aborted, stray)
-            tr["job"] = {"hist": job["hist"], "cancel_at": job.get("cancel_at"), "late": bool(job.get("late"))}
+            tr["job"] = {"hist": job["hist"], "cancel_at": job.get("cancel_at"), "late": bool(job.get("late")),
+                         "stall": bool(job.get("stall"))}
             tr["main_points"] = env.main_points
             tr["points"] = env.points
             tr["rc"] = r["rc"]
